@@ -134,6 +134,26 @@ class TfyRepr(Tfy):
         return "<tfyrepr></tfyrepr>"
 
 
+_TAGSUB: dict = {}
+
+
+def _tagsub_class():
+    """a component written as a Tag *subclass* that overrides tagify() (renders as a placeholder element unless expanded)"""
+    h = H()
+    if h not in _TAGSUB:
+
+        class CardTag(h.Tag):
+            def __init__(self, res):
+                super().__init__("card-placeholder", "not expanded")
+                self._res = res
+
+            def tagify(self):
+                return Tfy(self._res).tagify()
+
+        _TAGSUB[h] = CardTag
+    return _TAGSUB[h]
+
+
 def attr_value(v: Any):
     if isinstance(v, dict):
         if "strsub" in v:
@@ -221,6 +241,8 @@ def _build(r: Any, memo: Any = None):
             return TfyIter(r["res"], bool(r.get("raw")))
         if v == "flaky":
             return TfyFlaky(r["res"], id(r))
+        if v == "tagsub":
+            return _tagsub_class()(r["res"])
         if v == "flex":
             # an object of the plain self-rendering class Repr that *also* got a tagify() (set on the instance)
             o = Repr("<u>flex-not-expanded</u>")
